@@ -1,0 +1,360 @@
+//go:build verif
+
+// Contracts for package network_delegation (C12 delegation pool consistency and maturity, C02, C03).
+// Comment-only file, read by /verif/govc.
+
+package network_delegation
+
+// ================================================================ delegation store (store.go)
+//
+// ndRaw(st)[k]   : amount of the coin recorded under the full key k of the delegation store
+//                  (what get(k) reads; an absent key reads as 0, exactly as get does)
+// ndHas(st)[k]   : a record exists under k (what State.Exists answers for k)
+// ndOK(st)[k]    : reading k does not fail (no storage / deserialisation error)
+// ndActTotal(st) : ghost running total of all active delegation records written through Set
+// ndPendTotal(st): ghost running total of all pending undelegation records written through SetPendingAmount
+//@ model ndRaw(*Store) array[string]int
+//@ model ndHas(*Store) array[string]bool
+//@ model ndOK(*Store) array[string]bool
+//@ model ndActTotal(*Store) int
+//@ model ndPendTotal(*Store) int
+
+// key vocabulary: exactly the strings the code builds (same association of the concatenations)
+// ndItoa(h) is strconv.FormatInt(h, 10) (the engine's int_str)
+//@ ghost func ndItoa(h int) string = @int_str(h)
+//@ ghost func ndActPrefix(st *Store) string = ((str(st.prefix) + "_") + "a") + "_"
+//@ ghost func ndPendPrefix(st *Store) string = ((str(st.prefix) + "_") + "p") + "_"
+//@ ghost func ndActKey(st *Store, a bytes) string = ndActPrefix(st) + addrStr(str(a))
+//@ ghost func ndPendKey(st *Store, h int, a bytes) string = ndPendPrefix(st) + ((ndItoa(h) + "_") + addrStr(str(a)))
+// ndKind(p, k): the record family of key k relative to the store prefix p (1 active, 2 pending, 0 neither).
+// Strings are uninterpreted in the engine, so that the two families are disjoint is stated as two
+// axioms (true of real strings: after the same prefix p and "_" the next character is 'a' resp. 'p').
+// They are used only to prove the ndKind facts in the contracts of Set/Get*/SetPendingAmount below;
+// callers learn the family of a key from those contracts.
+//@ ghost func ndKind(p string, k string) int
+//@ axiom forall p string, x string :: ndKind(p, (((p + "_") + "a") + "_") + x) == 1                           // T-STR.key-family
+//@ axiom forall p string, x string :: ndKind(p, (((p + "_") + "p") + "_") + x) == 2                           // T-STR.key-family
+//@ ghost func ndIsAct(st *Store, k string) bool = ndKind(str(st.prefix), k) == 1
+//@ ghost func ndIsPend(st *Store, k string) bool = ndKind(str(st.prefix), k) == 2
+// the ledgers the property talks about
+//@ ghost func ndActive(st *Store, a bytes) int = ndRaw(st)[ndActKey(st, a)]
+//@ ghost func ndPend(st *Store, h int, a bytes) int = ndRaw(st)[ndPendKey(st, h, a)]
+// the prefix IteratePendingAmounts(h) scans: the pending prefix, then the decimal height FOLLOWED BY THE
+// SEPARATOR (so that only records of height h match; same association as append(prefix, (itoa+"_")...))
+//@ ghost func ndPendScanExact(st *Store, h int) string = ndPendPrefix(st) + (ndItoa(h) + "_")
+// the address of the delegation pool as a string
+//@ ghost func ndPoolAddr() string = DELEGATION_POOL_KEY
+
+// typed view of the store's State prefix: assumed (rests on C09's State contracts and on T-SER
+// round-tripping of balance.Coin); everything above these is proved against them.
+// (get starts from a zero OLT coin and only OLT coins are ever stored - see set - so the currency of the
+// result is OLT also when the read fails)
+//@ assume func (*Store).get
+//@   modifies nothing
+//@   ensures coin != nil && fresh(coin) && coin.Amount != nil && fresh(coin.Amount) && coin.Currency.Name == "OLT"
+//@   ensures (err == nil) == ndOK(st)[str(key)]
+//@   ensures err == nil ==> big(coin.Amount) == ndRaw(st)[str(key)]
+
+//@ assume func (*Store).set
+//@   requires st != nil && coin != nil && coin.Amount != nil
+//@   requires coin.Currency.Name == "OLT"                                                                    // C12.olt-only
+//@   modifies ndRaw(st)[str(key)], ndHas(st)[str(key)], ndOK(st)[str(key)], vHas(st.State), vVal(st.State)
+//@   ensures err == nil ==> ndRaw(st)[str(key)] == big(coin.Amount) && ndHas(st)[str(key)] && ndOK(st)[str(key)]
+//@   ensures err != nil ==> ndRaw(st)[str(key)] == old(ndRaw(st))[str(key)] && ndHas(st)[str(key)] == old(ndHas(st))[str(key)] && ndOK(st)[str(key)] == old(ndOK(st))[str(key)]
+
+// ---------------------------------------------------------------- re-aiming
+
+//@ func (*Store).WithState
+//@   requires st != nil
+//@   modifies st.State
+//@   ensures result == st && st.State == state
+
+//@ func (*Store).WithPrefix
+//@   requires st != nil
+//@   modifies st.currentPrefix
+//@   ensures result == st
+//@   ensures prefix == PendingType ==> str(st.currentPrefix) == ndPendPrefix(st)                               // C12.prefix-mode
+//@   ensures prefix == ActiveType ==> str(st.currentPrefix) == ndActPrefix(st)                                 // C12.prefix-mode
+//@   ensures prefix != PendingType && prefix != ActiveType ==> st.currentPrefix == old(st.currentPrefix)       // C12.prefix-mode
+
+// ---------------------------------------------------------------- active records (through currentPrefix)
+
+//@ func (*Store).Get
+//@   requires st != nil
+//@   modifies nothing
+//@   ensures coin != nil && fresh(coin) && coin.Amount != nil && fresh(coin.Amount) && coin.Currency.Name == "OLT"
+//@   ensures (err == nil) == ndOK(st)[str(st.currentPrefix) + addrStr(str(address))]
+//@   ensures err == nil ==> big(coin.Amount) == ndRaw(st)[str(st.currentPrefix) + addrStr(str(address))]     // C12.active-read
+
+//@ func (*Store).Set
+//@   requires st != nil && coin != nil && coin.Amount != nil
+//@   requires coin.Currency.Name == "OLT"                                                                    // C12.olt-only
+//@   requires str(st.currentPrefix) == ndActPrefix(st)                                                       // C12.prefix-mode
+//@   modifies ndRaw(st)[ndActKey(st, address)], ndHas(st)[ndActKey(st, address)], ndOK(st)[ndActKey(st, address)], ndActTotal(st), vHas(st.State), vVal(st.State)
+//@   update ndActTotal(st) := old(ndActTotal(st)) + (ndRaw(st)[ndActKey(st, address)] - old(ndRaw(st))[ndActKey(st, address)])
+//@   ensures err == nil ==> ndActive(st, address) == big(coin.Amount) && ndOK(st)[ndActKey(st, address)]       // C12.active-write
+//@   ensures err != nil ==> ndActive(st, address) == old(ndActive(st, address))                                // C12.active-write
+//@   ensures ndActTotal(st) == old(ndActTotal(st)) + (ndActive(st, address) - old(ndActive(st, address)))      // C12.active-total
+//@   ensures ndIsAct(st, ndActKey(st, address))                                                                // C12.key-family
+
+// ---------------------------------------------------------------- pending records (height, address)
+
+// exists-level read of the typed view (assumed like get): an absent record reads as 0
+//@ assume func (*Store).PendingExists
+//@   modifies nothing
+//@   ensures result == ndHas(st)[ndPendKey(st, height, addr)]
+//@   ensures !result ==> ndPend(st, height, addr) == 0 && ndOK(st)[ndPendKey(st, height, addr)]
+
+//@ assume func (*Store).Exists
+//@   modifies nothing
+//@   ensures result == ndHas(st)[str(st.currentPrefix) + addrStr(str(*addr))]
+
+//@ func (*Store).GetPendingAmount
+//@   requires st != nil
+//@   modifies nothing
+//@   ensures coin != nil && fresh(coin) && coin.Amount != nil && fresh(coin.Amount) && coin.Currency.Name == "OLT"
+//@   ensures (err == nil) == ndOK(st)[ndPendKey(st, height, addr)]
+//@   ensures err == nil ==> big(coin.Amount) == ndPend(st, height, addr)                                       // C12.pending-read
+
+//@ func (*Store).SetPendingAmount
+//@   requires st != nil && coin != nil && coin.Amount != nil
+//@   requires coin.Currency.Name == "OLT"                                                                    // C12.olt-only
+//@   modifies ndRaw(st)[ndPendKey(st, height, addr)], ndHas(st)[ndPendKey(st, height, addr)], ndOK(st)[ndPendKey(st, height, addr)], ndPendTotal(st), vHas(st.State), vVal(st.State)
+//@   update ndPendTotal(st) := old(ndPendTotal(st)) + (ndRaw(st)[ndPendKey(st, height, addr)] - old(ndRaw(st))[ndPendKey(st, height, addr)])
+//@   ensures err == nil ==> ndPend(st, height, addr) == big(coin.Amount) && ndHas(st)[ndPendKey(st, height, addr)] && ndOK(st)[ndPendKey(st, height, addr)]   // C12.pending-write
+//@   ensures err != nil ==> ndPend(st, height, addr) == old(ndPend(st, height, addr))                          // C12.pending-write
+//@   ensures ndPendTotal(st) == old(ndPendTotal(st)) + (ndPend(st, height, addr) - old(ndPend(st, height, addr)))   // C12.pending-total
+//@   ensures ndIsPend(st, ndPendKey(st, height, addr))                                                         // C12.key-family
+
+// ---------------------------------------------------------------- scans
+//
+// The range scan itself (storage.State.IterateRange over the IAVL tree, key splitting, address
+// parsing) is assumed.  iterateAddresses records the prefix it was asked to scan in the ghost
+// field ndLastScan so that its callers' choice of prefix becomes a checkable postcondition.
+//@ model ndLastScan(*Store) string
+//@ assume func (*Store).iterateAddresses
+//@   modifies ndLastScan(st)
+//@   ensures ndLastScan(st) == str(prefix)
+
+// What a scan IteratePendingAmounts(height) visits: the n-th visited record is the pending record of
+// (height, ndScanA(st,height,n)); records are visited once; the callback sees the value currently
+// stored (State.IterateRange collects the keys first and reads each value when it is visited).
+// ndScanCount is the number of records visited when the callback never stops.
+//@ ghost func ndScanA(st *Store, height int, n int) string
+//@ ghost func ndScanCount(st *Store, height int) int
+//
+// The body is verified: it proves that the scanned prefix is "<prefix>_p_<height>_", i.e. the height
+// INCLUDING the separator that follows it in every record key "<prefix>_p_<height>_<address>"
+// (C12.scan-exact-height).  Before repair 5f46b28 the separator was missing and the scan for height 1 also
+// visited heights 10..19, 100..199, ... (records paid early and twice by the BeginBlock hook).  That every
+// key with this prefix is a record of exactly that height (decimal digits contain no "_") is string
+// reasoning the engine cannot do; it is what the yields clauses (assumed at call sites, as for every
+// iterator) state.
+//@ func (*Store).IteratePendingAmounts
+//@   iterator
+//@   requires st != nil
+//@   modifies ndLastScan(st)
+//@   count ndScanCount(st, height)
+//@   yields y0 != nil && y1 != nil && y1.Amount != nil && str(*y0) == ndScanA(st, height, $n)
+//@   yields y1.Currency.Name == "OLT" && big(y1.Amount) == ndPend(st, height, *y0)
+//@   yields forall i int, j int :: 0 <= i && i < j && j < ndScanCount(st, height) ==> ndPendKey(st, height, bytes(ndScanA(st, height, i))) != ndPendKey(st, height, bytes(ndScanA(st, height, j)))
+//@   ensures ndLastScan(st) == ndPendScanExact(st, height)                                                     // C12.scan-exact-height
+
+// (for C13's reward distribution) ndActCount(st): number of active records visited; ndActSum(st, n): sum of the
+// amounts of the first n visited records.  Assumed, like the other scans: every active record is visited exactly
+// once and active amounts are non-negative, so the sum over the whole scan is the running total ndActTotal.
+// (State.IterateRange only sees keys already written to the tree: true at a block boundary, where the hooks run.)
+//@ ghost func ndActSum(st *Store, n int) int
+//@ ghost func ndActCount(st *Store) int
+//@ func (*Store).IterateActiveAmounts
+//@   iterator
+//@   requires st != nil
+//@   modifies ndLastScan(st)
+//@   count ndActCount(st)
+//@   yields y0 != nil && y1 != nil && y1.Amount != nil && big(y1.Amount) == ndActive(st, *y0)
+//@   yields 0 <= $n && $n < ndActCount(st) && ndActSum(st, $n + 1) == ndActSum(st, $n) + big(y1.Amount) && ndActSum(st, 0) == 0 && big(y1.Amount) >= 0
+//@   yields ndActSum(st, ndActCount(st)) == ndActTotal(st)
+// prefix sums never exceed the total (consequence of the two clauses above, every visited amount being >= 0;
+// stated because the callback may stop the scan early)
+//@   yields ndActSum(st, $n + 1) <= ndActTotal(st)
+//@   ensures ndLastScan(st) == ndActPrefix(st)                                                                 // C12.scan-active
+
+// ================================================================ delegation rewards store (rewards_store.go)
+//
+// ndRRaw(drs)[k]      : amount recorded under the full key k of the rewards store (absent key reads as 0, as get does)
+// ndRPendTotal(drs)   : ghost running total of all pending reward-withdrawal records
+//@ model ndRRaw(*DelegRewardStore) array[string]int
+//@ model ndRPendTotal(*DelegRewardStore) int
+// keys: what the fmt.Sprintf formats "%sbalance_%s", "%stotal_rewards", "%spending_%d_%s" produce
+//@ ghost func ndRewBalKey(drs *DelegRewardStore, a bytes) string = (str(drs.prefix) + "balance_") + addrStr(str(a))
+//@ ghost func ndRewTotalKey(drs *DelegRewardStore) string = str(drs.prefix) + "total_rewards"
+//@ ghost func ndRewPendKey(drs *DelegRewardStore, h int, a bytes) string = (((str(drs.prefix) + "pending_") + ndItoa(h)) + "_") + addrStr(str(a))
+// the ledgers the property talks about
+//@ ghost func ndRew(drs *DelegRewardStore, a bytes) int = ndRRaw(drs)[ndRewBalKey(drs, a)]
+//@ ghost func ndRewTotal(drs *DelegRewardStore) int = ndRRaw(drs)[ndRewTotalKey(drs)]
+//@ ghost func ndRewPend(drs *DelegRewardStore, h int, a bytes) int = ndRRaw(drs)[ndRewPendKey(drs, h, a)]
+
+// key builders: fmt.Sprintf is not modelled by the engine, so the produced text is assumed
+// (format strings read off the source).  ndRKind(k) is the family of a key (1 balance, 2 total,
+// 3 pending): the three families are disjoint because the text after the store prefix starts
+// with 'b', 't', 'p' respectively.
+//@ ghost func ndRKind(k string) int
+//@ assume func (*DelegRewardStore).getRewardsBalanceKey
+//@   modifies nothing
+//@   ensures !isnil(result) && str(result) == ndRewBalKey(drs, delegator) && ndRKind(str(result)) == 1
+//@ assume func (*DelegRewardStore).getTotalRewardsKey
+//@   modifies nothing
+//@   ensures !isnil(result) && str(result) == ndRewTotalKey(drs) && ndRKind(str(result)) == 2
+//@ assume func (*DelegRewardStore).getPendingRewardsKey
+//@   modifies nothing
+//@   ensures !isnil(result) && str(result) == ndRewPendKey(drs, height, delegator) && ndRKind(str(result)) == 3
+
+// typed view of the State prefix (assumed: C09 State contracts + T-SER round trip of balance.Amount).
+// get returns amt == nil when State.Get fails, so freshness of amt is not stated (callers under contract
+// return on error before touching amt).
+//@ assume func (*DelegRewardStore).get
+//@   modifies nothing
+//@   ensures err == nil ==> amt != nil && big(amt) == ndRRaw(drs)[str(key)]
+//@ assume func (*DelegRewardStore).set
+//@   requires drs != nil && dyntype(obj, "*balance.Amount") && unbox(obj, "*balance.Amount") != nil
+//@   modifies ndRRaw(drs)[str(key)], vHas(drs.state), vVal(drs.state)
+//@   ensures err == nil ==> ndRRaw(drs)[str(key)] == big(unbox(obj, "*balance.Amount"))
+//@   ensures err != nil ==> ndRRaw(drs)[str(key)] == old(ndRRaw(drs))[str(key)]
+
+//@ func (*DelegRewardStore).WithState
+//@   requires drs != nil
+//@   modifies drs.state
+//@   ensures result == drs && drs.state == state
+
+//@ func (*MasterStore).WithState
+//@   requires master != nil && master.Deleg != nil && master.Rewards != nil
+//@   modifies master.Deleg.State, master.Rewards.state
+//@   ensures result == master && master.Deleg.State == state && master.Rewards.state == state
+
+// ---------------------------------------------------------------- reward balance
+
+//@ func (*DelegRewardStore).GetRewardsBalance
+//@   requires drs != nil
+//@   modifies nothing
+//@   ensures err == nil ==> amt != nil && big(amt) == ndRew(drs, delegator)                                    // C12.reward-read
+
+//@ func (*DelegRewardStore).GetTotalRewards
+//@   requires drs != nil
+//@   modifies nothing
+//@   ensures err == nil ==> amt != nil && big(amt) == ndRewTotal(drs)                                          // C12.reward-read
+
+// accrual (called by the block reward distribution)
+//@ func (*DelegRewardStore).AddRewardsBalance
+//@   requires drs != nil && amount != nil
+//@   modifies ndRRaw(drs)[ndRewBalKey(drs, delegator)], ndRRaw(drs)[ndRewTotalKey(drs)], vHas(drs.state), vVal(drs.state)
+//@   ensures err == nil ==> ndRewTotal(drs) == old(ndRewTotal(drs)) + big(amount)                              // C02.delta
+//@   ensures ndRew(drs, delegator) == old(ndRew(drs, delegator)) || ndRew(drs, delegator) == old(ndRew(drs, delegator)) + big(amount)   // C02.delta
+//@   ensures ndRewTotal(drs) == old(ndRewTotal(drs)) || ndRewTotal(drs) == old(ndRewTotal(drs)) + big(amount)  // C02.delta
+//@   claims err == nil ==> ndRew(drs, delegator) == old(ndRew(drs, delegator)) + big(amount)                   // C02.delta-error-dropped
+
+// debit of the reward balance: never below zero ("never exceed the accrued reward balance")
+//@ func (*DelegRewardStore).MinusRewardsBalance
+//@   requires drs != nil && amount != nil
+//@   modifies ndRRaw(drs)[ndRewBalKey(drs, delegator)], vHas(drs.state), vVal(drs.state)
+//@   ensures err == nil ==> ndRew(drs, delegator) == old(ndRew(drs, delegator)) - big(amount)                  // C02.delta
+//@   ensures err == nil ==> old(ndRew(drs, delegator)) >= big(amount)                                          // C12.within-accrued
+//@   ensures err != nil ==> ndRew(drs, delegator) == old(ndRew(drs, delegator))                                // C02.delta
+//@   ensures ndRKind(ndRewBalKey(drs, delegator)) == 1
+
+// ---------------------------------------------------------------- pending reward withdrawals (height, address)
+
+//@ func (*DelegRewardStore).addPendingRewards
+//@   requires drs != nil && amount != nil
+//@   modifies ndRRaw(drs)[ndRewPendKey(drs, height, delegator)], ndRPendTotal(drs), vHas(drs.state), vVal(drs.state)
+//@   update ndRPendTotal(drs) := old(ndRPendTotal(drs)) + (ndRRaw(drs)[ndRewPendKey(drs, height, delegator)] - old(ndRRaw(drs))[ndRewPendKey(drs, height, delegator)])
+//@   ensures err == nil ==> ndRewPend(drs, height, delegator) == old(ndRewPend(drs, height, delegator)) + big(amount)   // C02.delta
+//@   ensures err != nil ==> ndRewPend(drs, height, delegator) == old(ndRewPend(drs, height, delegator))        // C02.delta
+//@   ensures ndRPendTotal(drs) == old(ndRPendTotal(drs)) + (ndRewPend(drs, height, delegator) - old(ndRewPend(drs, height, delegator)))   // C12.pending-total
+//@   ensures ndRKind(ndRewPendKey(drs, height, delegator)) == 3
+
+//@ func (*DelegRewardStore).SetPendingRewards
+//@   requires drs != nil && amount != nil
+//@   modifies ndRRaw(drs)[ndRewPendKey(drs, height, delegator)], ndRPendTotal(drs), vHas(drs.state), vVal(drs.state)
+//@   update ndRPendTotal(drs) := old(ndRPendTotal(drs)) + (ndRRaw(drs)[ndRewPendKey(drs, height, delegator)] - old(ndRRaw(drs))[ndRewPendKey(drs, height, delegator)])
+//@   ensures err == nil ==> ndRewPend(drs, height, delegator) == big(amount)                                   // C12.pending-write
+//@   ensures err != nil ==> ndRewPend(drs, height, delegator) == old(ndRewPend(drs, height, delegator))        // C12.pending-write
+//@   ensures ndRPendTotal(drs) == old(ndRPendTotal(drs)) + (ndRewPend(drs, height, delegator) - old(ndRewPend(drs, height, delegator)))   // C12.pending-total
+//@   ensures ndRKind(ndRewPendKey(drs, height, delegator)) == 3
+
+// initiate a withdrawal: reward balance -> pending record of the maturity height
+//@ func (*DelegRewardStore).Withdraw
+//@   requires drs != nil && amount != nil
+//@   modifies ndRRaw(drs)[ndRewBalKey(drs, delegator)], ndRRaw(drs)[ndRewPendKey(drs, matureHeight, delegator)], ndRPendTotal(drs), vHas(drs.state), vVal(drs.state)
+//@   ensures err == nil ==> ndRew(drs, delegator) == old(ndRew(drs, delegator)) - big(amount)                  // C02.delta
+//@   ensures err == nil ==> old(ndRew(drs, delegator)) >= big(amount)                                          // C12.within-accrued
+//@   ensures err == nil ==> ndRewPend(drs, matureHeight, delegator) == old(ndRewPend(drs, matureHeight, delegator)) + big(amount)   // C12.pending-at-maturity
+//@   ensures err == nil ==> ndRPendTotal(drs) == old(ndRPendTotal(drs)) + big(amount)                          // C12.pending-total
+//@   ensures ndRew(drs, delegator) <= old(ndRew(drs, delegator)) || big(amount) < 0                            // C03.only-debit
+
+// scan of the pending reward records of one height.  The format "%spending_%d_" ends with the
+// separator, so (unlike Store.IteratePendingAmounts) only records of exactly that height match;
+// because fmt.Sprintf is not modelled this is read off the source, not proved (a replay on the real store
+// with records at heights 1, 2, 10, 11, 19, 100, 111 confirms it: IteratePD(1) yields only the height-1 record).
+//@ ghost func ndPDA(drs *DelegRewardStore, height int, n int) string
+//@ ghost func ndPDCount(drs *DelegRewardStore, height int) int
+//@ assume func (*DelegRewardStore).IteratePD
+//@   iterator
+//@   modifies nothing
+//@   count ndPDCount(drs, height)
+//@   yields y1 != nil && str(y0) == ndPDA(drs, height, $n) && big(y1) == ndRewPend(drs, height, y0)
+//@   yields forall i int, j int :: 0 <= i && i < j && j < ndPDCount(drs, height) ==> ndRewPendKey(drs, height, bytes(ndPDA(drs, height, i))) != ndRewPendKey(drs, height, bytes(ndPDA(drs, height, j)))
+
+// ================================================================ construction, genesis loading, remaining scans
+
+// NewStore aims the fresh store at "<prefix>_a" WITHOUT the trailing separator that WithPrefix(ActiveType)
+// produces ("<prefix>_a_"): until the first WithPrefix call, Get/Set/Exists address different keys.
+//@ func NewStore
+//@   modifies nothing
+//@   ensures result != nil && fresh(result) && result.State == state && str(result.prefix) == prefix && str(result.currentPrefix) == (prefix + "_") + "a"   // C12.prefix-mode
+//@   claims str(result.currentPrefix) == ndActPrefix(result)                                                   // C12.prefix-mode-initial
+
+//@ func NewDelegRewardStore
+//@   modifies nothing
+//@   ensures result != nil && fresh(result) && result.state == state && str(result.prefix) == prefix + "_"
+
+//@ func NewMasterStore
+//@   modifies nothing
+//@   ensures result != nil && fresh(result)
+//@   ensures result.Deleg != nil && fresh(result.Deleg)
+//@   ensures result.Rewards != nil && fresh(result.Rewards)
+//@   ensures result.Deleg.State == state
+//@   ensures result.Rewards.state == state
+
+// all pending undelegation records / all pending reward withdrawals / all reward balances (used by queries
+// and state export only): assumed scans, no claim on which records are visited
+//@ assume func (*Store).IterateAllPendingAmounts
+//@   iterator
+//@   modifies nothing
+//@   yields y1 != nil && y2 != nil && y2.Amount != nil && big(y2.Amount) == ndPend(st, y0, *y1)
+//@ assume func (*DelegRewardStore).IterateAllPD
+//@   iterator
+//@   modifies nothing
+//@   yields y2 != nil && big(y2) == ndRewPend(drs, y0, y1)
+//@ assume func (*DelegRewardStore).IterateActiveRewards
+//@   iterator
+//@   modifies nothing
+//@   yields y0 != nil && y1 != nil && big(y1) == ndRew(drs, *y0)
+
+// genesis: every listed record is written under the key family it belongs to
+//@ func (*Store).LoadDelegators
+//@   requires st != nil
+//@   requires forall i int :: 0 <= i && i < len(state.ActiveList) ==> state.ActiveList[i].Address != nil && state.ActiveList[i].Amount != nil && state.ActiveList[i].Amount.Amount != nil && state.ActiveList[i].Amount.Currency.Name == "OLT"
+//@   requires forall i int :: 0 <= i && i < len(state.PendingList) ==> state.PendingList[i].Address != nil && state.PendingList[i].Amount != nil && state.PendingList[i].Amount.Amount != nil && state.PendingList[i].Amount.Currency.Name == "OLT"
+//@   modifies st.currentPrefix, ndRaw(st), ndHas(st), ndOK(st), ndActTotal(st), ndPendTotal(st), vHas(st.State), vVal(st.State)
+//@   invariant loop1: 0 <= $i && $i <= len(state.ActiveList) && ndPendTotal(st) == old(ndPendTotal(st))
+//@   invariant loop2: 0 <= $i && $i <= len(state.PendingList)
+
+// genesis / state import of the rewards store: balances are accrued, pending withdrawals are re-based on
+// the current version and added under their own height; nothing else is written
+//@ func (*DelegRewardStore).LoadState
+//@   requires drs != nil && drs.state != nil && drs.state.cs != nil && state != nil
+//@   requires forall i int :: 0 <= i && i < len(state.BalanceList) ==> state.BalanceList[i].Amount != nil
+//@   requires forall i int :: 0 <= i && i < len(state.PendingList) ==> state.PendingList[i].Amount != nil
+//@   modifies ndRRaw(drs), ndRPendTotal(drs), vHas(drs.state), vVal(drs.state)
+//@   invariant loop1: 0 <= $i && $i <= len(state.BalanceList) && ndRPendTotal(drs) == old(ndRPendTotal(drs))
+//@   invariant loop2: 0 <= $i && $i <= len(state.PendingList)
